@@ -50,7 +50,7 @@ func genC04(r *Rng, tier string, idx int) *Plan {
 	targets := []string{genTarget(r), genTarget(r), genTarget(r)}
 	attacker := 3
 	variants := []string{"", "", "", "reorder", "dup-state-forged-first", "dup-state-own-first", "dup-code", "case", "empty", "extra", "missing-code", "missing-state", "fragment"}
-	codeSrc := func() string { return r.Pick([]string{"own", "of:0", "of:1", "of:2", "forged"}) }
+	codeSrc := func() string { return r.Pick([]string{"own", "of:0", "of:1", "of:2", "forged", "inject"}) }
 	stateSrc := func() string {
 		return r.Pick([]string{"own", "of:0", "of:1", "of:2", "forged", "near", "upper", "truncated", "extended"})
 	}
